@@ -250,7 +250,8 @@ def run(ctx):
 
     traces = drive(ctx, bindir, "quick" if ctx.quick() else "thorough", ctx.seed, SHARDS)
     tot = {"executions": 0, "faults_fired": 0, "faults_with_pending_rows": 0, "distinct_nontrivial": 0, "panics": 0,
-           "events": 0, "reader_interleavings": 0, "crash_images": 0, "err_after_commit": 0, "fault_absorbed_ok": 0}
+           "events": 0, "reader_interleavings": 0, "crash_images": 0, "err_after_commit": 0, "fault_absorbed_ok": 0,
+           "skipped_positions": 0}
     groups = []
     for _, st in traces:
         tot["events"] += st["events"]
@@ -284,9 +285,14 @@ def run(ctx):
         "database + journal/WAL files reopened fresh, not a power cut below the VFS)",
         "faults are SQLITE_INTERRUPT raised by the progress handler at a chosen VM step of the writer's connection; other "
         "error kinds (I/O, full disk) take the same error paths of rusqlite",
+        "no fault is injected at the last VM step of a BEGIN, a COMMIT or an autocommit write that has already taken "
+        "effect (SQLite would report an error for a statement that ran to completion: an artefact of the progress "
+        "handler) nor inside a ROLLBACK (rusqlite's Transaction::drop cannot report a failed ROLLBACK; the connection "
+        "would stay inside the transaction whatever the wallet does); such positions are counted as skipped_positions",
         "one writer (the API takes &mut self); the reader is a second connection to the same file",
-        "pre-states are produced by short seeded histories on the harness chain (two wallets: rollback-journal without "
-        "NU6.3, WAL with NU6.3 active)",
+        "pre-states are produced by short seeded histories on the harness chain (three wallets: rollback journal without "
+        "NU6.3; WAL with NU6.3 active; rollback journal with NU6.3 and a pool migration in flight; thorough: each also in "
+        "the other journal mode)",
         "random identifiers (account / migration uuids) are blanked in the canonical dump; all other columns are compared "
         "exactly",
     ])
